@@ -11,36 +11,41 @@ LEVEL = "proof"
 DESIGN_REF = "DESIGN.md §9 C06, §12.C06"
 COQ_TARGETS = ["Properties/C06", "Pins/C06"]
 THEOREMS = [("PdfV.Properties.C06", n) for n in [
-    "C06_rc4_involution", "C06_rc4_bad_key", "C06_pkcs7", "C06_tables", "C06_from_password_rc4_refines", "C06_open_user_rc4",
-    "C06_open_owner_rc4", "C06_wrong_pw_rc4", "C06_accepted_iff_rc4", "C06_kdf_refines", "C06_plaintext", "C06_exempt", "C06_strf_refuted"]]
+    "C06_rc4_involution", "C06_rc4_bad_key", "C06_rc4_is_rc4", "C06_pkcs7", "C06_tables", "C06_from_password_rc4_refines", "C06_open_user_rc4",
+    "C06_open_owner_rc4", "C06_wrong_pw_rc4", "C06_accepted_iff_rc4", "C06_kdf_refines", "C06_from_password_56_refines", "C06_open_user_56", "C06_open_owner_56", "C06_wrong_pw_56", "C06_accepted_iff_56",
+    "C06_no_panic", "C06_decrypt_no_panic", "C06_plaintext", "C06_plaintext_string", "C06_plaintext_decode", "C06_open_user_rc4_reads", "C06_open_user_56_key", "C06_open_owner_56_key", "C06_opened_56_reads",
+    "C06_exempt", "C06_full"]]
 ANCHORS = ["crypt.rs"]
 MODES = ["rc4", "crypt_open", "crypt_dec", "crypt_doc"]
 TRUSTED_BASE = ["coqc 8.16.1 kernel (vm_compute for table lemmas and witnesses; no native_compute)",
-                "gen/extract_crypt.py (regenerates PADDING and 50 constants of crypt.rs into Gen/Generated.v)",
+                "gen/extract_crypt.py (regenerates PADDING, the Identity name and 52 constants of crypt.rs into Gen/Generated.v)",
                 "Extraction + ExtrOcamlBasic, ocamlfind ocamlopt 4.13.1, coq/driver/main.ml",
                 "harness pdfh (harness/src/modes/crypt.rs), tools/vplib (comparison)",
                 "tools/oracle/security.py (writer's side of ISO 32000-1 §7.6 / 32000-2 §7.6.4; hashlib; pure-python AES and RC4 "
                 "validated against FIPS-197 / RC4 vectors, the 10 encrypted sample files and RustCrypto through every case), "
                 "tools/oracle/pdfwriter.py, python zlib, python stringprep/unicodedata (SASLprep)",
                 "props/C06/mirror.py (enumerates the oracle queries of the model; a wrong enumeration stops the run as CHECK-BROKEN)"]
-ASSUMPTIONS = ["oracle premises of the theorems (explicit hypotheses): MD5 digests have 16 bytes, SHA-256 digests 32 bytes; "
-               "AES-CBC decryption inverts encryption on whole blocks and preserves length; nothing about collision resistance",
+ASSUMPTIONS = ["oracle premises of the theorems (explicit hypotheses): MD5 digests have 16 bytes, SHA-256/384/512 digests 32/48/64 bytes; "
+               "AES-CBC decryption inverts encryption on whole blocks and preserves length; nothing about collision resistance; "
+               "the R6 theorems hold for every fuel on which Algorithm 2.B is defined (its termination is not proved)",
                "MD5, SHA-256/384/512, AES-128/256-CBC, SASLprep+UTF-8, zlib are answered from per-case tables computed by python "
                "(each table entry is also exercised against the real crates by the correspondence run)",
                "the derive-generated CryptDict::from_primitive is outside the model (the model starts from the parsed dictionary)",
                "Rust u8 wrapping arithmetic, slice bounds and u32 checked_mul as written into the model"]
-RULE = ("crypt_open: handler variants R2 (40 bit), R3 (40..128 step 8), R4 (V2 / AESV2), R5, R6 x passwords (empty, ASCII, 31/32/33/40 bytes, "
+RULE = ("crypt_open: handler variants R2 (40 bit), R3 (40..128 step 8), R4 (V2 / AESV2), R5, R6, and V4/V5 dictionaries whose /StmF and /StrF "
+        "name different crypt filters (RC4 / AES-128 / AES-256 / Identity, Identity explicit or absent, both Identity) x passwords (empty, ASCII, 31/32/33/40 bytes, "
         "bytes >= 0x80, UTF-8 needing SASLprep, >127 bytes) x P x document id x EncryptMetadata x crypt-filter length spelling, opened with the user, "
-        "the owner and wrong passwords, each followed by Decoder::decrypt of payloads of lengths {0,1,15,16,17,31,32,1000} under object numbers up to "
-        "2^24+ and generations up to 65536+; malformed dictionaries (key length 0, /Length overflow, bad R/V, wrong U/O/UE lengths, missing entries, "
-        "non-UTF-8 passwords); crypt_dec: Decoder::new with arbitrary key/size/method on valid and malformed ciphertexts; crypt_doc: whole files written "
+        "the owner and wrong passwords, each followed by Decoder::decrypt (stream data) and Decoder::decrypt_string (strings), alternately, of payloads of lengths {0,1,15,16,17,31,32,1000} under object numbers up to "
+        "2^24+ and generations up to 65536+; malformed dictionaries (key length 0, /Length overflow, bad R/V, wrong U/O/UE lengths incl. empty and 16-byte UE/OE under RC4/AESV2 filters, missing entries, "
+        "non-UTF-8 passwords, two /CF entries of different /Length under every /StmF,/StrF choice); crypt_dec: Decoder::with_methods with arbitrary key/size/methods on valid and malformed ciphertexts; crypt_doc: whole files written "
         "by tools/oracle/pdfwriter.py (tables and xref streams, object streams, direct/indirect /Encrypt, metadata stream with EncryptMetadata on/off, "
         "strings nested in dictionaries/arrays, streams with no/ASCIIHex/ASCII85/Flate filters, generations > 0) read through Storage + Resolve; "
         "rc4: keys of 0..257 bytes.  non-trivial = at least 2 bytes of input; distinct by full case line")
 CASE_TIMEOUT = 30.0
 MODEL_TIMEOUT = 240.0
 
-METH = {"V2": 1, "AESV2": 2, "AESV3": 3}
+METH = {"V2": 1, "AESV2": 2, "AESV3": 3, "Identity": 0}
+MOUT = {"V2": b"V2", "AESV2": b"AESV2", "AESV3": b"AESV3", "Identity": b"None"}
 MNAME = {1: b"V2", 2: b"AESV2", 3: b"AESV3", 0: b"None"}
 LENS = [0, 1, 15, 16, 17, 31, 32, 1000]
 
@@ -56,17 +61,18 @@ def opt(x):
 def dict_fields(d):
     fs = [dnum(d["R"]), dnum(d["V"]), dnum(d["P"]), b"x" if d["bits"] is None else dnum(d["bits"]),
           b"d" if d["em"] is None else (b"1" if d["em"] else b"0"), d["O"], d["U"], opt(d["OE"]), opt(d["UE"]), opt(d["stmf"]),
-          dnum(len(d["cf"]))]
+          opt(d.get("strf")), dnum(len(d["cf"]))]
     for (n, m, l) in d["cf"]:
         fs += [n, dnum(m), b"0" if l is None else b"1" + dnum(l)]
     return fs
 
 
 def spec_of(h, drop_bits=False):
-    d = dict(R=h.R, V=h.V, P=h.P, bits=None if drop_bits else h.n * 8, em=h.em, O=h.O, U=h.U, OE=h.OE, UE=h.UE, stmf=None, cf=[])
+    d = dict(R=h.R, V=h.V, P=h.P, bits=None if drop_bits else h.n * 8, em=h.em, O=h.O, U=h.U, OE=h.OE, UE=h.UE, stmf=None, strf=None, cf=[])
     if h.V >= 4:
-        d["stmf"] = h.cf_name
-        d["cf"] = [(h.cf_name, METH[h.method], h.n if h.cf_length == "bytes" else None)]
+        stmf, strf, cfs = h.filters()
+        d["stmf"], d["strf"] = stmf, strf
+        d["cf"] = [(n, METH[m], l) for (n, m, l) in cfs]
     return d
 
 
@@ -78,17 +84,18 @@ def record_open(d, id0, pw, items, fuel=400, enc=None, meta=None):
         dc = M.from_password(rec, d, id0, pw, fuel)
         dc["enc"], dc["meta"] = enc, meta
         M.dkey(dc)
-        for (num, gen, data) in items:
-            M.try_decrypt(rec, dc, num, gen, data)
+        for it in items:
+            M.try_decrypt(rec, dc, it[0], it[1], it[2], string=len(it) > 3 and it[3])
     except (M.MErr, M.MPanic):
         pass
     return rec, dc
 
 
 def item_fields(items):
+    """items: (num, gen, data) = stream data (Decoder::decrypt) | (num, gen, data, True) = a string (Decoder::decrypt_string)"""
     fs = [dnum(len(items))]
-    for (num, gen, data) in items:
-        fs += [dnum(num), dnum(gen), data]
+    for it in items:
+        fs += [b"s" if len(it) > 3 and it[3] else b"t", dnum(it[0]), dnum(it[1]), it[2]]
     return fs
 
 
@@ -134,17 +141,24 @@ def variants(rng, tier):
     vs += [(4, "V2", 16, 4, "bytes"), (4, "V2", 16, 4, None), (4, "V2", 5, 4, "bytes"), (4, "V2", 9, 4, None),
            (4, "AESV2", 16, 4, "bytes"), (4, "AESV2", 16, 4, None), (4, "AESV2", 16, 4, "bytes"),
            (5, "AESV3", 32, 5, "bytes"), (5, "AESV3", 32, 5, None), (5, "AESV3", 32, 5, "bytes")]
+    # crypt filters chosen per /StmF and /StrF (C06-b): (R, stream method, n, V, cf_length, string method, Identity entries absent)
+    vs += [(4, "AESV2", 16, 4, "bytes", "V2", False), (4, "V2", 16, 4, "bytes", "AESV2", False), (4, "AESV2", 16, 4, None, "Identity", False),
+           (4, "V2", 16, 4, "bytes", "Identity", True), (4, "Identity", 16, 4, "bytes", "V2", False), (4, "Identity", 16, 4, None, "AESV2", True),
+           (4, "V2", 5, 4, "bytes", "Identity", False), (4, "Identity", 16, 4, "bytes", "Identity", False),
+           (5, "AESV3", 32, 5, "bytes", "Identity", False), (5, "Identity", 32, 5, "bytes", "AESV3", True)]
     return vs
 
 
 def make_handler(rng, var, upw=None, opw=None):
-    R, method, n, V, cfl = var
+    R, method, n, V, cfl = var[:5]
+    strm, absent = (var[5], var[6]) if len(var) > 5 else (None, False)
     pws = PW_UTF8 if R >= 5 else PW_BYTES
     upw = rng.choice(pws) if upw is None else upw
     opw = rng.choice(pws) if opw is None else opw
     salts = tuple(rand_bytes(rng, 8) for _ in range(4))
     return S.Handler(R, method, n, upw, opw, rng.choice(P_VALUES), rng.choice(IDS), encrypt_metadata=rng.random() < 0.6,
-                     salts=salts, file_key=rand_bytes(rng, 32), u_tail=rand_bytes(rng, 16), V=V, cf_length=cfl or "none")
+                     salts=salts, file_key=rand_bytes(rng, 32), u_tail=rand_bytes(rng, 16), V=V, cf_length=cfl or "none",
+                     str_method=strm, absent=absent)
 
 
 def wrong_password(rng, h):
@@ -166,12 +180,15 @@ def open_cases_for(rng, h, nitems=3, tags=()):
     if rng.random() < 0.15:
         plains.append(rand_bytes(rng, 1000))
     items, expect_items = [], []
-    for m in plains:
+    for i, m in enumerate(plains):
         num, gen = obj_ids(rng)
-        items.append((num, gen, h.encrypt(num, gen, m, rand_bytes(rng, 16))))
+        string = (i % 2 == 1)                    # alternately stream data (/StmF) and a string (/StrF)
+        items.append((num, gen, h.encrypt(num, gen, m, rand_bytes(rng, 16), string=string), string))
         expect_items.append(b"+" + m)
-    exp = ok(h.file_key[:16], h.method.encode(), *expect_items)
+    exp = ok(h.file_key[:16], MOUT[h.method], MOUT[h.str_method], *expect_items)
     tg = ["open", "R%d" % h.R, h.method, "n%d" % h.n] + list(tags)
+    if h.str_method != h.method:
+        tg.append("strf-differs")
     out = []
     for who, pw in (("user", h.upw), ("owner", h.opw or h.upw)):
         if h.R <= 4 and len(pw) > 32 and rng.random() < 0.5:
@@ -217,6 +234,11 @@ def malformed_open_cases(rng):
     mk(dict(b4, stmf=b"Identity"), tags=["stmf-identity-name"])
     mk(dict(b4, cf=[]), tags=["no-cf"])
     mk(dict(b4, cf=[(b"Other", 1, 16), (b"StdCF", 2, 16)]), tags=["two-filters"])
+    # /StmF and /StrF name filters that state different key lengths: the code takes the stream filter's (else the string filter's, else /Length)
+    for (l1, l2) in ((16, 5), (5, 16), (None, 5), (5, None), (16, None)):
+        for (sf, tf) in ((b"StdCF", b"Other"), (b"Identity", b"Other"), (b"StdCF", None), (None, b"Other"), (None, None), (b"Identity", b"Identity")):
+            mk(dict(b4, cf=[(b"StdCF", 1, l1), (b"Other", 2, l2)], stmf=sf, strf=tf), tags=["two-filter-lengths"],
+               items=[(3, 0, rand_bytes(rng, 32)), (3, 0, rand_bytes(rng, 32), True)])
     for R in (0, 1, 7, 100):
         mk(dict(base, R=R), tags=["bad-R"])
     for V in (0, 3, 7, -1):
@@ -245,9 +267,13 @@ def malformed_open_cases(rng):
             mk(dict(b5, UE=h5.UE[:31], OE=h5.OE[:17]), pw=pw, tags=["odd-UE"], id0=h5.id0)
             mk(dict(b5, UE=h5.UE + h5.UE[:16], OE=h5.OE + h5.OE), pw=pw, tags=["long-UE"], id0=h5.id0, items=[(1, 0, rand_bytes(rng, 32))])
         if var[0] == 5:
-            mk(dict(b5, UE=b"", OE=b""), pw=b"u", tags=["empty-UE"], id0=h5.id0, items=[(1, 0, rand_bytes(rng, 32))])
-            mk(dict(b5, UE=b"", OE=b"", cf=[(b"StdCF", 1, 16)], V=4), pw=b"u", tags=["empty-UE-rc4"], id0=h5.id0, items=[(1, 0, b"xyz")])
-            mk(dict(b5, UE=b"", OE=b"", cf=[(b"StdCF", 1, 16)], V=4), pw=b"u", tags=["empty-UE-rc4"], id0=h5.id0, items=[])
+            # C06-d: an unwrapped file key that is not 32 bytes long is an error value (it used to reach the slice in Decoder::key())
+            mk(dict(b5, UE=b"", OE=b""), pw=b"u", tags=["empty-UE"], id0=h5.id0, items=[(1, 0, rand_bytes(rng, 32))], check=no_panic)
+            for m56 in (1, 2):
+                for ue in (b"", h5.UE[:16]):
+                    for its in ([(1, 0, b"xyz")], [(1, 0, rand_bytes(rng, 32))], []):
+                        mk(dict(b5, UE=ue, OE=ue, cf=[(b"StdCF", m56, 16)], V=4), pw=b"u", tags=["empty-UE-rc4"], id0=h5.id0, items=its,
+                           check=no_panic)
             mk(dict(b5, U=h5.U[:47]), pw=b"u", tags=["short-U"], id0=h5.id0)
             mk(dict(b5, O=h5.O + b"x"), pw=b"u", tags=["long-O"], id0=h5.id0)
             for pw in (b"\xff\xfe", b"\x07bell", "ا1".encode(), b"\xc3", b"a\x7f", "".encode(), "ȡ".encode()):
@@ -261,21 +287,23 @@ def dec_cases(rng, tier):
     out = []
     n = 60 if tier == "quick" else 600
     for i in range(n):
-        method = rng.choice(["V2", "V2", "AESV2", "AESV3"])
-        ksz = 32 if method == "AESV3" else 16 if method == "AESV2" else rng.randrange(5, 17)
+        method = rng.choice(["V2", "V2", "AESV2", "AESV3", "Identity"])
+        smethod = method if rng.random() < 0.5 else rng.choice(["Identity", "AESV3"] if method == "AESV3" else
+                                                                ["V2", "AESV2", "Identity", "AESV3"] if method == "Identity" else ["V2", "AESV2", "Identity"])
+        both = (method, smethod)
+        ksz = 32 if "AESV3" in both else 16 if "AESV2" in both else rng.randrange(5, 17)
         fk = rand_bytes(rng, ksz)
-
-        class H:
-            pass
         h = S.Handler.__new__(S.Handler)
-        h.method, h.file_key, h.n = method, fk, ksz
+        h.method, h.str_method, h.file_key, h.n = method, smethod, fk, ksz
         key = fk + (bytes(16 - ksz) if ksz < 16 and rng.random() < 0.7 else b"")
         items, exp = [], []
-        for m in payloads(rng, 4):
+        for j, m in enumerate(payloads(rng, 4)):
             num, gen = obj_ids(rng)
-            items.append((num, gen, h.encrypt(num, gen, m, rand_bytes(rng, 16))))
+            string = (j % 2 == 1)
+            items.append((num, gen, h.encrypt(num, gen, m, rand_bytes(rng, 16), string=string), string))
             exp.append(b"+" + m)
-        out.append(dec_case(key, ksz, METH[method], rng.random() < 0.5, items, expect=ok(*exp), tags=["dec", method]))
+        out.append(dec_case(key, ksz, METH[method], rng.random() < 0.5, items, expect=ok(*exp), tags=["dec", method, "str-" + smethod],
+                            smethod=METH[smethod]))
     # malformed ciphertexts and decoder states: model correspondence only
     m_n = 80 if tier == "quick" else 800
     for i in range(m_n):
@@ -300,20 +328,22 @@ def dec_cases(rng, tier):
                     k = S.object_key(key[:min(ksz, 16)], 5, 0, True)
                     items.append((5, 0, iv + S.aes_cbc_enc(k, iv, pt)))
                     continue
-            items.append(obj_ids(rng) + (data,))
-        out.append(dec_case(key, ksz, method, rng.random() < 0.5, items, tags=["dec-malformed"]))
+            items.append(obj_ids(rng) + (data, rng.random() < 0.4))
+        out.append(dec_case(key, ksz, method, rng.random() < 0.5, items, tags=["dec-malformed"], smethod=rng.choice([method, 0, 1, 2, 3])))
     for ksz, klen in ((16, 0), (5, 4), (32, 15), (16, 16)):
-        out.append(dec_case(rand_bytes(rng, klen), ksz, 0, True, [(1, 0, b"abc")], tags=["dec-method-none"]))
-        out.append(dec_case(rand_bytes(rng, klen), ksz, 0, True, [(1, 0, b"")], tags=["dec-method-none"]))
+        # CryptMethod::None is the Identity filter: data is returned as it is (it used to be unreachable!())
+        out.append(dec_case(rand_bytes(rng, klen), ksz, 0, True, [(1, 0, b"abc"), (1, 0, b"abc", True)], expect=ok(b"+abc", b"+abc"), tags=["dec-method-none"]))
+        out.append(dec_case(rand_bytes(rng, klen), ksz, 0, True, [(1, 0, b"")], expect=ok(b"+"), tags=["dec-method-none"]))
     return out
 
 
-def dec_case(key, ksz, method, em, items, expect=None, tags=()):
+def dec_case(key, ksz, method, em, items, expect=None, tags=(), smethod=None):
     rec = M.Rec()
-    dc = dict(size=ksz, key=key, method=method, em=em, enc=None, meta=None)
-    for (num, gen, data) in items:
-        M.try_decrypt(rec, dc, num, gen, data)
-    base = [key, dnum(ksz), dnum(method), b"1" if em else b"0"] + item_fields(items)
+    smethod = method if smethod is None else smethod
+    dc = dict(size=ksz, key=key, method=method, smethod=smethod, em=em, enc=None, meta=None)
+    for it in items:
+        M.try_decrypt(rec, dc, it[0], it[1], it[2], string=len(it) > 3 and it[3])
+    base = [key, dnum(ksz), dnum(method), dnum(smethod), b"1" if em else b"0"] + item_fields(items)
     return Case("crypt_dec", base, expect=expect, mfields=base + rec.fields(), tags=tags)
 
 
@@ -411,8 +441,7 @@ def make_stream(rng, data, filt):
     return W.Stream(d, data)
 
 
-def doc_case(rng, h, fmt="table", enc_indirect=True, with_meta=True, objstm=False, pw=None, who="user", strf_identity=False,
-             stmf_identity=False, tags=(), wrong=False):
+def doc_case(rng, h, fmt="table", enc_indirect=True, with_meta=True, objstm=False, pw=None, who="user", tags=(), wrong=False):
     objs = W.minimal_catalog()
     gens = {}
     info_num = 4
@@ -441,16 +470,12 @@ def doc_case(rng, h, fmt="table", enc_indirect=True, with_meta=True, objstm=Fals
         num += 1
     enc_num = num
     num += 1
-    if strf_identity:
-        h.strf = b"Identity"
     ed = h.encrypt_dict()
-    if stmf_identity:
-        ed["StmF"] = W.Name("Identity")
     exempt = set()
     if with_meta and h.metadata_exempt:
         exempt.add(meta_num)
     ivs = iter(lambda: rand_bytes(rng, 16), None)
-    enc_objs = S.protect(objs, h, ivs, exempt=exempt, gens=gens, strings=not strf_identity, streams=not stmf_identity)
+    enc_objs = S.protect(objs, h, ivs, exempt=exempt, gens=gens)
     entries = {n: W.Obj(v, gens.get(n, 0)) for n, v in enc_objs.items()}
     comp_members = {}
     objstm_num = None
@@ -463,7 +488,7 @@ def doc_case(rng, h, fmt="table", enc_indirect=True, with_meta=True, objstm=Fals
         for n, v in comp_members.items():
             entries[n] = W.Comp(v)
         kw = dict(objstm_nums={None: objstm_num}, objstm_filter=rng.choice([None, "flate"]),
-                  objstm_transform=lambda snum, st: W.Stream(st.d, h.encrypt(snum, 0, st.data, rand_bytes(rng, 16))) if not stmf_identity else st)
+                  objstm_transform=lambda snum, st: W.Stream(st.d, h.encrypt(snum, 0, st.data, rand_bytes(rng, 16))))
     tr = {"Root": W.Ref(1), "Info": W.Ref(info_num), "ID": [h.id0, h.id0]}
     if enc_indirect:
         entries[enc_num] = W.Obj(ed)
@@ -503,8 +528,6 @@ def doc_case(rng, h, fmt="table", enc_indirect=True, with_meta=True, objstm=Fals
     for (n, g, a, b, _) in probes:
         mleaves.append((b"P", n, g, b"", data[a:b]))
     d = spec_of(h)
-    if stmf_identity:
-        d["stmf"] = b"Identity"
     enc_ref = (enc_num, 0) if enc_indirect else None
     meta_ref = (meta_num, gens.get(meta_num, 0)) if with_meta else None
     fuel = 400
@@ -515,7 +538,7 @@ def doc_case(rng, h, fmt="table", enc_indirect=True, with_meta=True, objstm=Fals
         for (k, n, g, fl, x) in mleaves:
             if k == b"M":
                 continue
-            r = M.try_decrypt(rec, dc, n, g, x)
+            r = M.try_decrypt(rec, dc, n, g, x, string=(k == b"S"))
             if r is not None and k == b"D":
                 for c in fl:
                     try:
@@ -536,6 +559,8 @@ def doc_case(rng, h, fmt="table", enc_indirect=True, with_meta=True, objstm=Fals
     n_spec = len(expect_leaves)
     full = expect_leaves + [p[4] for p in probes]
     tg = ["doc", "R%d" % h.R, h.method, fmt, "enc-indirect" if enc_indirect else "enc-direct", who] + list(tags)
+    if h.str_method != h.method:
+        tg.append("strf-differs")
     if with_meta:
         tg.append("meta-exempt" if h.metadata_exempt else "meta-encrypted")
     if objstm:
@@ -558,7 +583,12 @@ def doc_case(rng, h, fmt="table", enc_indirect=True, with_meta=True, objstm=Fals
 def doc_cases(rng, tier):
     out = []
     vs = [(2, "V2", 5, 1, None), (3, "V2", 16, 2, None), (3, "V2", 7, 2, None), (4, "V2", 16, 4, "bytes"), (4, "AESV2", 16, 4, "bytes"),
-          (4, "AESV2", 16, 4, None), (5, "AESV3", 32, 5, "bytes")]
+          (4, "AESV2", 16, 4, None), (5, "AESV3", 32, 5, "bytes"),
+          # /StmF and /StrF name different filters, one of them Identity (explicit or absent), both Identity
+          (4, "AESV2", 16, 4, "bytes", "V2", False), (4, "V2", 16, 4, "bytes", "AESV2", False), (4, "V2", 16, 4, "bytes", "Identity", False),
+          (4, "AESV2", 16, 4, "bytes", "Identity", True), (4, "Identity", 16, 4, "bytes", "V2", False), (4, "Identity", 16, 4, None, "AESV2", True),
+          (5, "AESV3", 32, 5, "bytes", "Identity", False), (5, "Identity", 32, 5, "bytes", "AESV3", False),
+          (4, "Identity", 16, 4, "bytes", "Identity", False)]
     reps = 4 if tier == "quick" else 40
     for rep in range(reps):
         for var in vs:
@@ -579,7 +609,7 @@ def doc_cases(rng, tier):
             for ind in (True, False):
                 h = make_handler(rng, var)
                 h2 = S.Handler(h.R, h.method, h.n, h.upw, h.opw, h.P, h.id0, encrypt_metadata=em, V=h.V, cf_length=h.cf_length,
-                               file_key=h.file_key)
+                               file_key=h.file_key, str_method=h.str_method, absent=h.absent)
                 c = doc_case(rng, h2, enc_indirect=ind, with_meta=True, tags=["em-%s" % em])
                 if c is not None:
                     out.append(c)
@@ -587,12 +617,12 @@ def doc_cases(rng, tier):
 
 
 def strf_cases(rng):
-    """crypt filters that differ for strings and streams (C06-b)"""
+    """the documents of finding C06-b (fixed): /StrF /Identity with an RC4 /StmF, and the reverse"""
     out = []
-    h = S.Handler(4, "V2", 16, b"user", b"owner", -4, b"0123456789abcdef", V=4)
-    out.append(doc_case(rng, h, with_meta=False, strf_identity=True, tags=["strf-identity"]))
-    h = S.Handler(4, "V2", 16, b"user", b"owner", -4, b"0123456789abcdef", V=4)
-    out.append(doc_case(rng, h, with_meta=False, stmf_identity=True, tags=["stmf-identity"]))
+    h = S.Handler(4, "V2", 16, b"user", b"owner", -4, b"0123456789abcdef", V=4, str_method="Identity")
+    out.append(doc_case(rng, h, with_meta=False, tags=["strf-identity"]))
+    h = S.Handler(4, "Identity", 16, b"user", b"owner", -4, b"0123456789abcdef", V=4, str_method="V2")
+    out.append(doc_case(rng, h, with_meta=False, tags=["stmf-identity"]))
     return [c for c in out if c is not None]
 
 
@@ -637,7 +667,7 @@ def generate(rng, tier):
 
 # ------------------------------------------------------------------------------------------------ judging
 ENAME = {"1": "InvalidPassword", "2": "MissingEntry", "3": "DecryptionFailure", "9": "Other"}
-PSITE = {"601": "crypt.rs", "603": "crypt.rs", "604": "crypt.rs"}
+PSITE = {"601": "crypt.rs", "603": "crypt.rs"}
 
 
 def same(r, m):
@@ -661,8 +691,6 @@ def model_broken(c, m):
 
 
 def classify(case, impl, model):
-    if "strf-identity" in case.tags or "stmf-identity" in case.tags:
-        return "C06-b"
     return None
 
 
@@ -677,16 +705,20 @@ def witness_case(f, c):
     if f["id"] == "C06-a":
         h = S.Handler(5, "AESV3", 32, b"user", b"owner", -4, b"0123456789abcdef", file_key=bytes(range(32)))
         items = [(7, 0, h.encrypt(7, 0, b"plaintext of object 7", bytes(16)))]
-        w = open_case(spec_of(h), h.id0, b"user", items, expect=ok(h.file_key[:16], b"AESV3", b"+plaintext of object 7"))
+        w = open_case(spec_of(h), h.id0, b"user", items, expect=ok(h.file_key[:16], b"AESV3", b"AESV3", b"+plaintext of object 7"))
     elif f["id"] == "C14-d":
         h = S.Handler(3, "V2", 8, b"u", b"o", -4, b"id")
         w = open_case(dict(spec_of(h), bits=0), h.id0, b"u", [], check=lambda r: None if r[0] == "ERR" else "key length 0 must be an error: %s %s" % r)
     elif f["id"] == "C06-c":
         h = S.Handler(3, "V2", 16, b"user", b"owner", -4, b"0123456789abcdef", encrypt_metadata=False, V=2)
         w = doc_case(rng, h, with_meta=True, enc_indirect=True)
+    elif f["id"] == "C06-d":
+        h = S.Handler(5, "AESV3", 32, b"u", b"o", -4, b"0123456789abcdef", file_key=bytes(range(32)))
+        w = open_case(dict(spec_of(h), UE=b"", OE=b"", cf=[(b"StdCF", 1, 16)], V=4), h.id0, b"u", [(1, 0, b"xyz")],
+                      check=lambda r: None if r[0] == "ERR" else "a file key that is not 32 bytes long must be an error: %s %s" % (r[0], r[1]))
     elif f["id"] == "C06-b":
-        h = S.Handler(4, "V2", 16, b"user", b"owner", -4, b"0123456789abcdef", V=4)
-        w = doc_case(rng, h, with_meta=False, strf_identity=True, tags=["strf-identity"])
+        h = S.Handler(4, "V2", 16, b"user", b"owner", -4, b"0123456789abcdef", V=4, str_method="Identity")
+        w = doc_case(rng, h, with_meta=False, tags=["strf-identity"])
     else:
         return c
     w.kind, w.note = "witness", f["id"]
